@@ -292,6 +292,8 @@ pub fn width_alphabet() -> Vec<WCall> {
         t(NItem::Full(ID_M, vec![NItem::Full(ID_N, vec![NItem::Full(ID_K, vec![NItem::Full(ID_L, vec![NItem::Leaf(ID_LB, Val::B(vec![0x3c; 120]))])])])]), WOpt::Default),
         t(NItem::Start(ID_EBML), WOpt::Default),
         t(NItem::End(ID_EBML), WOpt::Default),
+        // a raw tag (id outside the specification) through write(), not write_raw()
+        t(NItem::Raw(0xf3, vec![7, 8]), WOpt::Default),
         WCall::Flush,
     ]
 }
